@@ -3,6 +3,7 @@ From Coq Require Import Uint63. (* first, so that every later import shadows its
 From stdpp Require Export gmap strings list.
 From Coq Require Export ZArith Lia ZifyBool ZifyNat ZifyN.
 Global Open Scope string_scope.
+Global Open Scope list_scope.
 Global Open Scope Z_scope.
 
 (* indices (from 0) of the cases on which a boolean check fails *)
